@@ -453,6 +453,7 @@ impl Printer {
         for t in &p.tops {
             self.top(t);
         }
+        self.out = self.out.replace('\u{E000}', "\n");
         // the k-th `<!>` statement line of the text is the statement numbered k (print order)
         let mut lines = Vec::new();
         for (i, l) in self.out.split('\n').enumerate() {
@@ -660,7 +661,9 @@ impl Printer {
                     (t, 9)
                 }
             }
-            Expr::Str(s) => (format!("\"{}\"", s), 9),
+            // line breaks inside a literal must not be re-indented by the statement printer: they
+            // travel as a private-use placeholder and are restored when the program text is complete
+            Expr::Str(s) => (format!("\"{}\"", s.replace('\n', "\u{E000}")), 9),
             Expr::Bool(b) => (format!("{}", b), 9),
             Expr::Nil => ("nil".to_string(), 9),
             Expr::Var(n) => (n.clone(), 9),
